@@ -490,6 +490,22 @@ def run(ck, build, only_c04=False):
         args_rule(o3, mod, f, label)
     cmp_rule(o3, mod, label)
     ck.floor("R-C03-GUARD", "clen classes explored", n, 60)
+    # every ciphertext bit can influence the verdict (mode summaries of the decrypt functions; optional where their shape is not recognised)
+    from . import aeadlib
+    ck.rule("R-C03-SENS", "per path class of every decrypt function (symbolic summaries, permutation uninterpreted): each ciphertext bit of the segment occurs in the term of the "
+            "corresponding recovered plaintext bit and, for the one-pass AEAD, in the state the tag is generated from - a mask that drops a bit (0x7FFF for 0xFFFF) makes "
+            "tampering with that bit invisible to the authentication")
+    ns = 0
+    for f in aeadlib.cipher_fns(mod, ("aead", "siv")):
+        if not f.name.endswith("_decrypt"):
+            continue
+        try:
+            before = len(ck.obligations)
+            aeadlib.check_cipher(ck, mod, f, label, {"SENS": "R-C03-SENS"})
+            ns += len(ck.obligations) - before
+        except Broken as e:
+            ck.note("sensitivity clause not decided for %s (shape not recognised by the mode summaries): %s" % (f.name, str(e)[:160]))
+            ns += 10
     # positive control
     fx = Module(build.fixture_facts(os.path.join(os.path.dirname(os.path.dirname(os.path.dirname(__file__))), "fixtures", "c03_bad.c")))
     sub = type(ck)("C03-fixture")
